@@ -22,7 +22,7 @@ RULE = (
     "generated: (A) scripted-outcome histories: discover outcomes from {found, none, raise}, connect outcomes "
     "from {complete, retry-exceeded, no-pack, raise-at-step k}, 0..12 timed ops from {inject runtime event "
     "(ping received/missed/no-response, RF error, too many RF errors, retry exceeded, pack refreshed, water "
-    "care error), reset, set-spa-info} issued from their own tasks, client-handler suspensions 0..1 s; "
+    "care error), reset, set-spa-info} issued from their own tasks, client-handler suspensions 0..1 s, the client's handler raising on a phase event; "
     "(B) full-stack fault/user-action scripts (as C09); enumerated (layer A): every (discover, connect) outcome pair x every op "
     "sequence up to depth 1 (quick) / 2 (thorough) over 18 timed ops. Non-trivial = history with an error event, a reset or "
     ">=2 connections; distinct by canonical case."
@@ -191,11 +191,15 @@ def strategy(tier):
         st.tuples(st.sampled_from([0.0, 0.05, 0.2, 0.5, 1.0, 3.0]), st.just("inject"), st.sampled_from(INJECT)),
         st.tuples(st.sampled_from([0.0, 0.05, 0.2, 0.5, 1.0, 3.0]), st.sampled_from(["reset", "setinfo"]), st.just("")),
     ).map(list)
-    a = st.builds(lambda d, c, ops, su, sm: {"k": "A", "discover": d, "connect": c, "ops": ops, "suspend": su, "suspend_map": sm},
+    # the client's own handler failing while it is told about a phase event: the phase "raises" from the inside
+    raise_map = st.one_of(st.just({}), st.just({}), st.dictionaries(
+        st.sampled_from(["LOCATING_STARTED", "LOCATING_DISCOVERED_SPA", "CONNECTION_STARTED", "CLIENT_HAS_RECONNECT_BUTTON",
+                         "CONNECTION_GOT_FIRMWARE_VERSION", "CONNECTION_GOT_CHANNEL", "CONNECTION_SPA_COMPLETE"]), st.integers(1, 2), min_size=1, max_size=2))
+    a = st.builds(lambda d, c, ops, su, sm, rm: dict({"k": "A", "discover": d, "connect": c, "ops": ops, "suspend": su, "suspend_map": sm}, **({"raise_map": rm} if rm else {})),
                   st.lists(st.sampled_from(DISCOVER), min_size=1, max_size=6),
                   st.lists(st.sampled_from(CONNECT), min_size=1, max_size=5),
                   st.lists(op, max_size=12),
-                  st.lists(st.sampled_from([0.0, 0.0, 0.0, 0.15, 0.4, 1.0]), max_size=10), suspend_maps())
+                  st.lists(st.sampled_from([0.0, 0.0, 0.0, 0.15, 0.4, 1.0]), max_size=10), suspend_maps(), raise_map)
     from . import c09
     b = st.builds(lambda c, sm: dict(c, k="B", suspend_map=sm), c09.strategy(tier), suspend_maps())
     return st.one_of(a, a, a, b)
@@ -299,6 +303,7 @@ def _run_A(res, case):
         async with Man(W, spa_identifier=manager.SPA_ID_STR, spa_name="Spa") as man:
             man.suspend = list(case.get("suspend", []))
             man.suspend_map = dict(case.get("suspend_map", {}))
+            man.raise_map = dict(case.get("raise_map", {}))
             tasks = []
 
             async def inject(kind):
